@@ -4,7 +4,6 @@ Data file operations and readers/writers for the Python Iceberg implementation
 
 import math
 import os
-import struct
 import tempfile
 from datetime import datetime, time
 from decimal import Decimal
@@ -37,6 +36,11 @@ logger = get_logger(__name__)
 # temporal ones). pyarrow's Python->Arrow conversion silently TRUNCATES a float
 # given for such a column (1.5 -> 1, -0.5 -> 0) instead of raising.
 _INTEGER_BACKED_TYPES = frozenset({"int", "long", "date", "time", "timestamp"})
+
+
+# Smallest magnitude that IEEE round-to-nearest turns into float32 infinity: the
+# midpoint between the largest finite float32 and 2**128.
+_FLOAT32_ROUNDS_TO_INF = (2.0 - 2.0**-24) * 2.0**127
 
 
 def _has_fraction(value: Any) -> bool:
@@ -599,15 +603,16 @@ class DataFileManager:
 
             for name in float32_fields:
                 value = record.get(name)
-                if isinstance(value, float) and math.isfinite(value):
-                    try:
-                        struct.pack("f", value)
-                    except OverflowError:
-                        raise ValueError(
-                            f"Record {i}: {value!r} for field '{name}' (float) is outside the "
-                            f"32-bit float range and would be stored as infinity. Refusing to "
-                            f"silently alter it; declare the column as double."
-                        ) from None
+                if (
+                    isinstance(value, float)
+                    and math.isfinite(value)
+                    and abs(value) >= _FLOAT32_ROUNDS_TO_INF
+                ):
+                    raise ValueError(
+                        f"Record {i}: {value!r} for field '{name}' (float) is outside the "
+                        f"32-bit float range and would be stored as infinity. Refusing to "
+                        f"silently alter it; declare the column as double."
+                    )
 
     def write_data_file(
         self,
